@@ -17,6 +17,7 @@
 #include "unc_ctype.h"
 #include "uncrustify_version.h"
 #include "unicode.h"
+#include "verif_hooks.h"
 
 #include <ctime>
 #include <map>
@@ -290,6 +291,10 @@ static void add_spaces()
 
 static void add_char(UINT32 ch, bool is_literal)
 {
+#ifdef UNCRUSTIFY_VERIF
+   verif_addchar_scope verif_scope(ch, is_literal);
+#endif
+
    // If we did a '\r' and it isn't followed by a '\n', then output a newline
    if (  (cpd.last_char == '\r')
       && (ch != '\n'))
@@ -402,6 +407,7 @@ static void add_text(const UncText &text, bool is_ignored = false, bool is_liter
 
       if (is_ignored)
       {
+         VERIF_HOOK(verif_out_raw(ch));
          write_char(ch);
       }
       else
@@ -769,6 +775,7 @@ void output_text(FILE *pfile)
    cpd.fout        = pfile;
    cpd.did_newline = true;
    cpd.column      = 1;
+   VERIF_HOOK(verif_out_chunk(nullptr));
 
    if (cpd.bom)
    {
@@ -835,6 +842,7 @@ void output_text(FILE *pfile)
       LOG_FMT(LCONTTEXT, "%s(%d): Text() is '%s', type is %s, orig line is %zu, column is %zu, nl is %zu\n",
               __func__, __LINE__, pc->ElidedText(copy), get_token_name(pc->GetType()), pc->GetOrigLine(), pc->GetColumn(), pc->GetNlCount());
       cpd.output_tab_as_space = false;
+      VERIF_HOOK(verif_out_chunk(pc));
 
       if (pc->Is(CT_NEWLINE))
       {
@@ -1131,6 +1139,7 @@ void output_text(FILE *pfile)
       add_text("</body>\n");
       add_text("</html>\n");
    }
+   VERIF_HOOK(verif_out_end());
 } // output_text
 
 
